@@ -884,17 +884,27 @@ fn run(cfg: &Cfg, rep: &mut Report) {
                     rep.violation(&format!("fp.{BACKEND}.angle_wrap_differs"), format!("[{BACKEND}] rads({x}).wrap({min},{max}) = {w}"), Json::obj().set("x", f32s(x)).set("min", f32s(min)).set("max", f32s(max)));
                     return;
                 }
-                // "behaves the same as in std builds": what std's f32
-                // arithmetic gives for the same expression
-                let expect = min + (x - min).rem_euclid(max - min);
-                let tol32 = 16.0 * 1.1920929e-7 * (min.abs() + len32.abs()) + if BACKEND == "mm" { 3e-3 * len32.abs() } else { 0.0 };
-                if (w - expect).abs() > tol32 {
-                    rep.violation(
-                        &format!("fp.{BACKEND}.angle_wrap_differs_from_std"),
-                        format!("[{BACKEND}] rads({x:?}).wrap({min:?}, {max:?}) = {w:?}; a std build gives {expect:?}"),
-                        Json::obj().set("x", f32s(x)).set("min", f32s(min)).set("max", f32s(max)),
-                    );
-                    return;
+                // "behaves the same as in std builds": away from the seam
+                // that is the congruence just checked (both are then within
+                // the tolerance of the one exact value). At the seam — x a
+                // whole number of interval lengths from min in exact
+                // arithmetic, with the difference and the length themselves
+                // representable, so that no rounding is involved — a std
+                // build returns min, never max ("closed at the upper end
+                // only by rounding").
+                let d64 = x as f64 - min as f64;
+                let no_rounding = (d64 as f32) as f64 == d64 && (max as f64 - min as f64) == len;
+                if no_rounding && d64.rem_euclid(len) == 0.0 {
+                    let slack = if BACKEND == "mm" { 3e-3 * len32.abs() + 16.0 * 1.1920929e-7 * (min.abs() + len32.abs()) } else { 0.0 };
+                    if (w - min).abs() > slack {
+                        rep.violation(
+                            &format!("fp.{BACKEND}.angle_wrap_differs_from_std"),
+                            format!("[{BACKEND}] rads({x:?}).wrap({min:?}, {max:?}) = {w:?}; x is exactly a whole number of interval lengths from min, a std build gives {min:?}"),
+                            Json::obj().set("x", f32s(x)).set("min", f32s(min)).set("max", f32s(max)),
+                        );
+                        return;
+                    }
+                    rep.count("wrap_checks.seam_without_rounding(must equal min)");
                 }
                 if x == min || x == max || (x - min) % len32 == 0.0 {
                     rep.count("wrap_checks.exact_multiple_or_end");
@@ -911,6 +921,9 @@ fn run(cfg: &Cfg, rep: &mut Report) {
     rep.floor("tri_fill_checks", 30_000);
     rep.floor("sampler_checks", 200_000);
     rep.floor("normalize_checks", 200_000);
+    if BACKEND != "none" {
+        rep.floor("wrap_checks.seam_without_rounding(must equal min)", 40_000);
+    }
 }
 
 fn lookup(p: &str) -> Option<rftk::cli::MonFn> {
